@@ -163,7 +163,7 @@ func main() {
 			dw = append(dw, w)
 		}
 	}
-	nDir, maxRuns := run.N(3, 12), run.N(14, 30)
+	nDir, maxRuns := run.N(3, 12), 26
 	dr := run.Rand("directed")
 	for k := 0; k < nDir && len(dw) > 0; k++ {
 		r := dr.Fork(fmt.Sprint("d", k))
